@@ -204,5 +204,122 @@ theorem CInv.itCore_ccw {s : St} (hc : CInv s) (f0 : Nat) (p : Pt) (d : Nat) (hf
     intro hfx
     grind (splits := 40)
 
+set_option maxHeartbeats 4000000 in
+/-- `insert_into_triangle` keeps the anchor of every inner face on the face -/
+theorem LInv.itCore_ft {s : St} (hs : LInv s) (hft3 : s.FaceTriples) (f0 : Nat) (p : Pt) (d : Nat) (hf0 : 0 < f0) (hf : f0 < s.nF) :
+    (St.itCore s (s.fe f0) (s.nxt (s.fe f0)) (s.nxt (s.nxt (s.fe f0)))
+      (s.org (s.fe f0)) (s.org (s.nxt (s.fe f0))) (s.org (s.nxt (s.nxt (s.fe f0)))) f0 p d).FaceTriples := by
+  have ev0 := hs.even
+  obtain ⟨b_0, hfc⟩ := hs.anchor f0 hf0 hf
+  have hfc0 : s.fc (s.fe f0) ≠ 0 := by omega
+  obtain ⟨b_1, b_2, a3, a4, a5, a6, a7, a8, d_0_1, d_0_2, d_1_2⟩ := hs.tri b_0 hfc0
+  have E0 := hs.edge _ b_0
+  have E1 := hs.edge _ b_1
+  have E2 := hs.edge _ b_2
+  have l0 := hs.rv_lt b_0
+  have l1 := hs.rv_lt b_1
+  have l2 := hs.rv_lt b_2
+  generalize he0 : s.fe f0 = e0 at *
+  generalize he1 : s.nxt e0 = e1 at *
+  rw [a3]
+  generalize he2 : s.prv e0 = e2 at *
+  have n_0 : ∀ k, s.nE + k ≠ e0 := by intro k; omega
+  have m_0 : s.nE ≠ e0 := by omega
+  have u_0 : ∀ k, e0 < s.nE + k := by intro k; omega
+  have n_1 : ∀ k, s.nE + k ≠ e1 := by intro k; omega
+  have m_1 : s.nE ≠ e1 := by omega
+  have u_1 : ∀ k, e1 < s.nE + k := by intro k; omega
+  have n_2 : ∀ k, s.nE + k ≠ e2 := by intro k; omega
+  have m_2 : s.nE ≠ e2 := by omega
+  have u_2 : ∀ k, e2 < s.nE + k := by intro k; omega
+  have szE : (s.itCore e0 e1 e2 (s.org e0) (s.org e1) (s.org e2) f0 p d).nE = s.nE + 6 := by unfold St.itCore; evw [b_0, b_1, b_2, d_0_1, d_0_1.symm, d_0_2, d_0_2.symm, d_1_2, d_1_2.symm, n_0, (n_0 _).symm, m_0, m_0.symm, u_0, n_1, (n_1 _).symm, m_1, m_1.symm, u_1, n_2, (n_2 _).symm, m_2, m_2.symm, u_2]
+  have szF : (s.itCore e0 e1 e2 (s.org e0) (s.org e1) (s.org e2) f0 p d).nF = s.nF + 2 := by unfold St.itCore; evw [b_0, b_1, b_2, d_0_1, d_0_1.symm, d_0_2, d_0_2.symm, d_1_2, d_1_2.symm, n_0, (n_0 _).symm, m_0, m_0.symm, u_0, n_1, (n_1 _).symm, m_1, m_1.symm, u_1, n_2, (n_2 _).symm, m_2, m_2.symm, u_2]
+  apply hs.faceTriples_of_local hft3 [e0, e1, e2] [e0, e1, e2] [e0, e1, e2] [e0, e1, e2] [f0]
+  · omega
+  · intro x hx
+    simp only [List.mem_cons, List.not_mem_nil, or_false] at hx ⊢
+    rcases hx with h | h | h <;> subst h <;> simp
+  · intro x hx
+    simp only [List.mem_cons, List.not_mem_nil, or_false] at hx ⊢
+    rcases hx with h | h | h <;> subst h <;> simp
+  · intro x hx
+    simp only [List.mem_cons, List.not_mem_nil, or_false] at hx ⊢
+    rcases hx with h | h | h <;> subst h <;> simp
+  · intro i hi hT
+    simp only [List.mem_cons, List.not_mem_nil, or_false, not_or] at hT
+    have hin : ∀ k, i ≠ s.nE + k := by intro k; omega
+    have hik : ∀ k, i < s.nE + k := by intro k; omega
+    have hi0 : i ≠ s.nE := by omega
+    unfold St.itCore
+    evw [b_0, b_1, b_2, d_0_1, d_0_1.symm, d_0_2, d_0_2.symm, d_1_2, d_1_2.symm, n_0, (n_0 _).symm, m_0, m_0.symm, u_0, n_1, (n_1 _).symm, m_1, m_1.symm, u_1, n_2, (n_2 _).symm, m_2, m_2.symm, u_2, hT, hin, hik, hi0, hi]
+  · intro i hi hT
+    simp only [List.mem_cons, List.not_mem_nil, or_false, not_or] at hT
+    have hin : ∀ k, i ≠ s.nE + k := by intro k; omega
+    have hik : ∀ k, i < s.nE + k := by intro k; omega
+    have hi0 : i ≠ s.nE := by omega
+    unfold St.itCore
+    evw [b_0, b_1, b_2, d_0_1, d_0_1.symm, d_0_2, d_0_2.symm, d_1_2, d_1_2.symm, n_0, (n_0 _).symm, m_0, m_0.symm, u_0, n_1, (n_1 _).symm, m_1, m_1.symm, u_1, n_2, (n_2 _).symm, m_2, m_2.symm, u_2, hT, hin, hik, hi0, hi]
+  · intro i hi hT
+    simp only [List.mem_cons, List.not_mem_nil, or_false, not_or] at hT
+    have hin : ∀ k, i ≠ s.nE + k := by intro k; omega
+    have hik : ∀ k, i < s.nE + k := by intro k; omega
+    have hi0 : i ≠ s.nE := by omega
+    unfold St.itCore
+    evw [b_0, b_1, b_2, d_0_1, d_0_1.symm, d_0_2, d_0_2.symm, d_1_2, d_1_2.symm, n_0, (n_0 _).symm, m_0, m_0.symm, u_0, n_1, (n_1 _).symm, m_1, m_1.symm, u_1, n_2, (n_2 _).symm, m_2, m_2.symm, u_2, hT, hin, hik, hi0, hi]
+  · intro f h0 hf hF
+    simp only [List.mem_cons, List.not_mem_nil, or_false, not_or] at hF
+    have hfn : ∀ k, f ≠ s.nF + k := by intro k; omega
+    have hf0 : f ≠ s.nF := by omega
+    have hfz : f ≠ 0 := by omega
+    unfold St.itCore; evw [b_0, b_1, b_2, d_0_1, d_0_1.symm, d_0_2, d_0_2.symm, d_1_2, d_1_2.symm, n_0, (n_0 _).symm, m_0, m_0.symm, u_0, n_1, (n_1 _).symm, m_1, m_1.symm, u_1, n_2, (n_2 _).symm, m_2, m_2.symm, u_2, hfn, hf0, hfz, hF] <;> grind
+  · intro g hg hfg hmem
+    simp only [List.mem_cons, List.not_mem_nil, or_false] at hmem ⊢
+    have := hs.same_face_cycle hft3 b_0 hg hfc0 (by rw [hmem, hfc])
+    rw [he1, he2] at this
+    exact this
+  · intro x hx hc hfx
+    have hx' : x = e0 ∨ x = e1 ∨ x = e2 ∨ x = s.nE ∨ x = s.nE + 1 ∨ x = s.nE + 2 ∨ x = s.nE + 3 ∨ x = s.nE + 4 ∨ x = s.nE + 5 := by
+      rcases hc with h | h
+      · simp only [List.mem_cons, List.not_mem_nil, or_false] at h <;> omega
+      · omega
+    unfold St.itCore at hfx ⊢
+    unfold EdgeOK dst at *
+    rcases hx' with h | h | h | h | h | h | h | h | h <;> subst h
+    all_goals (revert hfx; evw [b_0, b_1, b_2, d_0_1, d_0_1.symm, d_0_2, d_0_2.symm, d_1_2, d_1_2.symm, n_0, (n_0 _).symm, m_0, m_0.symm, u_0, n_1, (n_1 _).symm, m_1, m_1.symm, u_1, n_2, (n_2 _).symm, m_2, m_2.symm, u_2, he1, he2, a3, a4, a5, a6, hf, hfc]; intro hfx; grind (splits := 40))
+
+set_option maxHeartbeats 4000000 in
+theorem LInv.itCore_vb {s : St} (hs : LInv s) (hvb : s.VBound) (f0 : Nat) (p : Pt) (d : Nat) (hf0 : 0 < f0) (hf : f0 < s.nF) :
+    (St.itCore s (s.fe f0) (s.nxt (s.fe f0)) (s.nxt (s.nxt (s.fe f0)))
+      (s.org (s.fe f0)) (s.org (s.nxt (s.fe f0))) (s.org (s.nxt (s.nxt (s.fe f0)))) f0 p d).VBound := by
+  have ev0 := hs.even
+  obtain ⟨b_0, hfc⟩ := hs.anchor f0 hf0 hf
+  have hfc0 : s.fc (s.fe f0) ≠ 0 := by omega
+  obtain ⟨b_1, b_2, a3, a4, a5, a6, a7, a8, d_0_1, d_0_2, d_1_2⟩ := hs.tri b_0 hfc0
+  have E0 := hs.edge _ b_0
+  have E1 := hs.edge _ b_1
+  have E2 := hs.edge _ b_2
+  have l0 := hs.rv_lt b_0
+  have l1 := hs.rv_lt b_1
+  have l2 := hs.rv_lt b_2
+  generalize he0 : s.fe f0 = e0 at *
+  generalize he1 : s.nxt e0 = e1 at *
+  rw [a3]
+  generalize he2 : s.prv e0 = e2 at *
+  have n_0 : ∀ k, s.nE + k ≠ e0 := by intro k; omega
+  have m_0 : s.nE ≠ e0 := by omega
+  have u_0 : ∀ k, e0 < s.nE + k := by intro k; omega
+  have n_1 : ∀ k, s.nE + k ≠ e1 := by intro k; omega
+  have m_1 : s.nE ≠ e1 := by omega
+  have u_1 : ∀ k, e1 < s.nE + k := by intro k; omega
+  have n_2 : ∀ k, s.nE + k ≠ e2 := by intro k; omega
+  have m_2 : s.nE ≠ e2 := by omega
+  have u_2 : ∀ k, e2 < s.nE + k := by intro k; omega
+  have szE : (s.itCore e0 e1 e2 (s.org e0) (s.org e1) (s.org e2) f0 p d).nE = s.nE + 6 := by unfold St.itCore; evw [b_0, b_1, b_2, d_0_1, d_0_1.symm, d_0_2, d_0_2.symm, d_1_2, d_1_2.symm, n_0, (n_0 _).symm, m_0, m_0.symm, u_0, n_1, (n_1 _).symm, m_1, m_1.symm, u_1, n_2, (n_2 _).symm, m_2, m_2.symm, u_2]
+  unfold St.itCore at szE ⊢
+  refine vbound_run s _ hvb (s.nE + 6) szE (by omega) ?_
+  intro i hi
+  simp only [List.mem_cons, List.not_mem_nil, or_false] at hi
+  rcases hi with rfl | rfl | rfl | rfl | rfl | rfl | rfl | rfl | rfl | rfl | rfl | rfl | rfl | rfl <;> simp only [Instr.argOK] <;> omega
+
 end St
 end Spade
